@@ -94,7 +94,7 @@ func main() {
 	}
 
 	var sites []site
-	nImports, nRanges, nFmt, nFP := 0, 0, 0, 0
+	nImports, nRanges, nFmt, nFP, nGo, nChan := 0, 0, 0, 0, 0, 0
 	for _, p := range pkgs {
 		if !strings.HasPrefix(p.PkgPath, module) || p.PkgPath == simrtPath || strings.HasPrefix(p.PkgPath, simrtPath+"/") {
 			continue
@@ -155,10 +155,67 @@ func main() {
 				_, ok = t.Underlying().(*types.Map)
 				return rs, ok
 			}
+			isChanRange := func(n ast.Node) (*ast.RangeStmt, bool) {
+				rs, ok := n.(*ast.RangeStmt)
+				if !ok {
+					return nil, false
+				}
+				t := p.TypesInfo.TypeOf(rs.X)
+				if t == nil {
+					return nil, false
+				}
+				_, ok = t.Underlying().(*types.Chan)
+				return rs, ok
+			}
 			// post-order: inner statements are rewritten before the statement that contains them
 			astutil.Apply(f, nil, func(c *astutil.Cursor) bool {
 				switch n := c.Node().(type) {
+				case *ast.SelectStmt:
+					die("%s: select statements are not supported by the channel seam", fname)
+				case *ast.GoStmt:
+					c.Replace(rewriteGo(p.TypesInfo, n))
+					needSimrt, changed = true, true
+					nGo++
+					return true
+				case *ast.SendStmt:
+					c.Replace(&ast.ExprStmt{X: &ast.CallExpr{
+						Fun:  &ast.SelectorExpr{X: ast.NewIdent("__simrt"), Sel: ast.NewIdent("ChanSend")},
+						Args: []ast.Expr{n.Chan, n.Value},
+					}})
+					needSimrt, changed = true, true
+					nChan++
+					return true
+				case *ast.UnaryExpr:
+					if n.Op != token.ARROW {
+						return true
+					}
+					c.Replace(&ast.CallExpr{
+						Fun:  &ast.SelectorExpr{X: ast.NewIdent("__simrt"), Sel: ast.NewIdent("ChanRecv")},
+						Args: []ast.Expr{n.X},
+					})
+					needSimrt, changed = true, true
+					nChan++
+					return true
+				case *ast.AssignStmt:
+					// v, ok := <-ch  (the receive was already rewritten to ChanRecv)
+					if len(n.Lhs) == 2 && len(n.Rhs) == 1 {
+						fixRecv2(n.Rhs[0])
+					}
+					return true
+				case *ast.ValueSpec:
+					if len(n.Names) == 2 && len(n.Values) == 1 {
+						fixRecv2(n.Values[0])
+					}
+					return true
 				case *ast.LabeledStmt:
+					if rs, ok := isChanRange(n.Stmt); ok {
+						nChan++
+						needSimrt, changed = true, true
+						pre, loop := rewriteChanRange(rs, nChan)
+						n.Stmt = loop
+						c.Replace(&ast.BlockStmt{List: append(pre, n)})
+						return true
+					}
 					rs, ok := isMapRange(n.Stmt)
 					if !ok {
 						return true
@@ -170,6 +227,14 @@ func main() {
 					c.Replace(&ast.BlockStmt{List: append(pre, n)})
 					return true
 				case *ast.CallExpr:
+					if id, ok := n.Fun.(*ast.Ident); ok && id.Name == "close" && len(n.Args) == 1 {
+						if _, isBuiltin := p.TypesInfo.Uses[id].(*types.Builtin); isBuiltin {
+							n.Fun = &ast.SelectorExpr{X: ast.NewIdent("__simrt"), Sel: ast.NewIdent("ChanClose")}
+							needSimrt, changed = true, true
+							nChan++
+						}
+						return true
+					}
 					sel, ok := n.Fun.(*ast.SelectorExpr)
 					if !ok {
 						return true
@@ -205,6 +270,16 @@ func main() {
 					nFmt++
 					return true
 				case *ast.RangeStmt:
+					if _, ok := isChanRange(n); ok {
+						if _, lab := c.Parent().(*ast.LabeledStmt); lab {
+							return true
+						}
+						nChan++
+						needSimrt, changed = true, true
+						pre, loop := rewriteChanRange(n, nChan)
+						c.Replace(&ast.BlockStmt{List: append(pre, loop)})
+						return true
+					}
 					if _, ok := isMapRange(n); !ok {
 						return true
 					}
@@ -274,8 +349,8 @@ func main() {
 	if err := os.WriteFile(filepath.Join(dir, "simrt", "sites_gen.go"), []byte(sb.String()), 0o644); err != nil {
 		die("%v", err)
 	}
-	fmt.Printf("simprep: module=%s sync-imports=%d map-ranges=%d fmt-%%p-calls=%d failpoints=%d perLoopVars=%v\n",
-		module, nImports, nRanges, nFmt, nFP, perLoopVars)
+	fmt.Printf("simprep: module=%s sync-imports=%d map-ranges=%d fmt-%%p-calls=%d failpoints=%d go-stmts=%d chan-ops=%d perLoopVars=%v\n",
+		module, nImports, nRanges, nFmt, nFP, nGo, nChan, perLoopVars)
 }
 
 func hasPVerb(fs string) bool {
@@ -409,4 +484,97 @@ func rewriteRange(rs *ast.RangeStmt, n int, perLoop bool) ([]ast.Stmt, *ast.Rang
 		Body:  body,
 	}
 	return outer, loop
+}
+
+// fixRecv2 turns the single-value receive helper into the comma-ok one.
+func fixRecv2(e ast.Expr) {
+	ce, ok := e.(*ast.CallExpr)
+	if !ok {
+		return
+	}
+	sel, ok := ce.Fun.(*ast.SelectorExpr)
+	if !ok {
+		return
+	}
+	if x, ok := sel.X.(*ast.Ident); ok && x.Name == "__simrt" && sel.Sel.Name == "ChanRecv" {
+		sel.Sel = ast.NewIdent("ChanRecv2")
+	}
+}
+
+var goCounter int
+
+// rewriteGo turns `go f(a, b)` into
+//
+//	{ __gfN := f; __gaN_0 := a; __gaN_1 := b; __simrt.Go(func() { __gfN(__gaN_0, __gaN_1) }) }
+//
+// (function value and arguments are evaluated at the go statement, as Go does).
+// Constant and nil arguments are kept inline so that they keep their untyped nature.
+func rewriteGo(info *types.Info, g *ast.GoStmt) ast.Stmt {
+	goCounter++
+	sfx := strconv.Itoa(goCounter)
+	call := g.Call
+	var pre []ast.Stmt
+	fn := call.Fun
+	_, isLit := fn.(*ast.FuncLit)
+	builtin := false
+	if id, ok := fn.(*ast.Ident); ok && info.Uses[id] != nil {
+		builtin = isBuiltinObj(info.Uses[id])
+	}
+	if !builtin && !(isLit && len(call.Args) == 0) {
+		f := ast.NewIdent("__gf" + sfx)
+		pre = append(pre, &ast.AssignStmt{Lhs: []ast.Expr{f}, Tok: token.DEFINE, Rhs: []ast.Expr{fn}})
+		fn = f
+	}
+	args := make([]ast.Expr, len(call.Args))
+	for i, a := range call.Args {
+		tv, ok := info.Types[a]
+		if ok && (tv.Value != nil || tv.IsNil()) {
+			args[i] = a
+			continue
+		}
+		t := ast.NewIdent("__ga" + sfx + "_" + strconv.Itoa(i))
+		pre = append(pre, &ast.AssignStmt{Lhs: []ast.Expr{t}, Tok: token.DEFINE, Rhs: []ast.Expr{a}})
+		args[i] = t
+	}
+	inner := &ast.CallExpr{Fun: fn, Args: args, Ellipsis: call.Ellipsis}
+	goCall := &ast.ExprStmt{X: &ast.CallExpr{
+		Fun: &ast.SelectorExpr{X: ast.NewIdent("__simrt"), Sel: ast.NewIdent("Go")},
+		Args: []ast.Expr{&ast.FuncLit{
+			Type: &ast.FuncType{Params: &ast.FieldList{}},
+			Body: &ast.BlockStmt{List: []ast.Stmt{&ast.ExprStmt{X: inner}}},
+		}},
+	}}
+	return &ast.BlockStmt{List: append(pre, goCall)}
+}
+
+func isBuiltinObj(o types.Object) bool {
+	_, ok := o.(*types.Builtin)
+	return ok
+}
+
+// rewriteChanRange turns `for v := range ch { body }` into
+//
+//	{ __cN := ch; for { v, __cokN := __simrt.ChanRecv2(__cN); if !__cokN { break }; body } }
+func rewriteChanRange(rs *ast.RangeStmt, n int) ([]ast.Stmt, *ast.ForStmt) {
+	sfx := strconv.Itoa(n)
+	cName := ast.NewIdent("__c" + sfx)
+	okName := ast.NewIdent("__cok" + sfx)
+	pre := []ast.Stmt{&ast.AssignStmt{Lhs: []ast.Expr{cName}, Tok: token.DEFINE, Rhs: []ast.Expr{rs.X}}}
+	recv := &ast.CallExpr{Fun: &ast.SelectorExpr{X: ast.NewIdent("__simrt"), Sel: ast.NewIdent("ChanRecv2")}, Args: []ast.Expr{cName}}
+	var head []ast.Stmt
+	var lhs ast.Expr = ast.NewIdent("_")
+	if !isBlank(rs.Key) {
+		lhs = rs.Key
+	}
+	if rs.Tok == token.DEFINE || isBlank(rs.Key) {
+		head = append(head, &ast.AssignStmt{Lhs: []ast.Expr{lhs, okName}, Tok: token.DEFINE, Rhs: []ast.Expr{recv}})
+	} else {
+		head = append(head,
+			&ast.DeclStmt{Decl: &ast.GenDecl{Tok: token.VAR, Specs: []ast.Spec{&ast.ValueSpec{Names: []*ast.Ident{okName}, Type: ast.NewIdent("bool")}}}},
+			&ast.AssignStmt{Lhs: []ast.Expr{lhs, okName}, Tok: token.ASSIGN, Rhs: []ast.Expr{recv}})
+	}
+	head = append(head, &ast.IfStmt{Cond: &ast.UnaryExpr{Op: token.NOT, X: okName},
+		Body: &ast.BlockStmt{List: []ast.Stmt{&ast.BranchStmt{Tok: token.BREAK}}}})
+	loop := &ast.ForStmt{Body: &ast.BlockStmt{List: append(head, rs.Body.List...)}}
+	return pre, loop
 }
